@@ -78,9 +78,9 @@ def trusted_scan(unit):
     return out
 
 
-def run_unit(name, do_vacuity=True):
+def run_unit(name, do_vacuity=True, known=()):
     try:
-        r = verusrun.verify_unit(name)
+        r = verusrun.verify_unit(name, known=known)
         vac = verusrun.vacuity_check(name) if do_vacuity and not r.undecided else None
         return name, r, vac, None
     except LostAnchor as e:
@@ -115,7 +115,8 @@ def main():
     undecided, violations, known = [], [], []
     unit_results = {}
     with cf.ThreadPoolExecutor(max_workers=8) as ex:
-        futs = [ex.submit(run_unit, u) for u in P['units']]
+        kn = [k['obligation'] for k in findings if pid in k['props']]
+        futs = [ex.submit(run_unit, u, True, kn) for u in P['units']]
         kfut = None
         if not a.no_kani:
             groups = list(P.get('kani_quick', [])) + (list(P.get('kani_thorough', [])) if tier == 'thorough' else [])
@@ -138,7 +139,7 @@ def main():
             continue
         checker_cmds.append(r.cmd)
         smt_ms += r.smt_ms
-        names = r.obligations
+        names = [n for n in r.obligations if n not in getattr(r, 'known_checked', {})]
         obligations += len(names)
         discharged += sum(1 for n in names if r.status.get(n) == 'discharged')
         for u in r.undecided:
@@ -277,6 +278,7 @@ def main():
             composition=P.get('composition', 'paper (DESIGN section 5/6); unit obligations machine-checked'),
             not_covered=P.get('not_covered', []),
             known_findings=[dict(obligation=fl.ident(), what=kf['what']) for fl, kf in known],
+            known_finding_obligations_excluded_from_counts=len(known),
             undecided=undecided,
             failed=[fl.ident() for fl, _, _, _ in real_viol],
         ),
